@@ -132,6 +132,12 @@ void sim_result_ok(void)
     if (G.plain_points)
         sim_count("sim.plain_access_sched_points", G.plain_points);
     sim_write_result("ok", "-", "");
+#ifdef SIM_GCOV
+    {
+        extern void __gcov_dump(void);
+        __gcov_dump();
+    }
+#endif
     _exit(0);
 }
 
